@@ -146,6 +146,19 @@ def eval_roundtrip(case):
             header = header_line
         else:
             tags = dict(tr.tags)
+            # the writers (FastqHandle.write) serialise with str(record): what they put on disk must be the asFastq record,
+            # and a refusal by asFastq must reach them as an exception, not as some other text
+            try:
+                written = str(tr)
+            except Exception as e:
+                written = e
+            try:
+                direct = tr.asFastq()
+            except Exception as e:
+                direct = e
+            if isinstance(direct, Exception) != isinstance(written, Exception) or (not isinstance(direct, Exception) and written != direct):
+                out.bad('written-text-differs-from-asFastq' if not isinstance(direct, Exception) else 'refusal-swallowed-on-the-writer-path',
+                        'asFastq: %r; str(record), which FastqHandle.write puts into the file: %r' % (str(direct)[:80], str(written)[:80]))
             try:
                 header = tr.asFastq().split('\n')[0]
             except ValueError as e:
@@ -215,6 +228,15 @@ def eval_roundtrip(case):
                 out.bad('RQ-not-original-phred', '%s: input UMI qualities %r, decoded RQ %r, expected %r' % (name, orig, got['RQ'], want))
         if 'RX' in got:
             has_umi = True
+        # raw and corrected cell barcode against the bases the harness put into the read and the whitelist
+        if meta['raw_bc'] is not None and 'bc' in got and name not in ('DamID2andT_3u4b3u4b', 'DamID2andT_3u4b3u6b', 'DamAndT'):
+            wl_all = dict(ds.whitelist(meta['bp'], meta['alias']))
+            if got['bc'] != meta['raw_bc']:
+                out.bad('raw-barcode-not-the-bases-of-the-read', '%s: decoded bc %r, bases in the read %r (decoded BC %r)' % (name, got['bc'], meta['raw_bc'], got.get('BC')))
+            elif got.get('BC') not in wl_all:
+                out.bad('cell-barcode-not-whitelisted', '%s: decoded BC %r (raw %r)' % (name, got.get('BC'), meta['raw_bc']))
+            elif str(got.get('bi')) != str(wl_all[got['BC']]):
+                out.bad('cell-index-not-the-index-of-the-barcode', '%s: BC %r bi %r whitelist index %r' % (name, got['BC'], got.get('bi'), wl_all[got['BC']]))
         if 'bi' in tags:
             if got.get('SM') != '%s_%s' % (case['lib'], tags['bi']):
                 out.bad('SM-not-library_cellindex', 'SM %r, library %r bi %r' % (got.get('SM'), case['lib'], tags['bi']))
